@@ -233,6 +233,76 @@ def run_hypothesis(ctx, label, strategy, body, max_examples, shrink=True):
             ctx.failures[sig]["shrunk"] = True
 
 
+def run_machine(ctx, label, make_machine, max_examples, step_count):
+    """Run a hypothesis RuleBasedStateMachine in collect-then-shrink mode.
+
+    ``make_machine(sink)`` returns a machine class whose rules call
+    ``sink(sig, case, detail)`` when the real object and the model disagree
+    (case must hold the whole history so that it can be replayed without
+    hypothesis) and then stop acting (the machine marks itself dead).  In the
+    collect pass the sink records; in the shrink pass it raises for one
+    signature so that hypothesis minimises the history.
+    """
+    import hypothesis
+    from hypothesis import HealthCheck, Phase, settings
+    from hypothesis.stateful import run_state_machine_as_test
+
+    sd = derive_seed(ctx.seed, ctx.prop, ctx.unit, label)
+    before = set(ctx.failures)
+    common = dict(
+        database=None,
+        deadline=None,
+        derandomize=False,
+        report_multiple_bugs=False,
+        suppress_health_check=list(HealthCheck),
+        stateful_step_count=step_count,
+    )
+
+    def collect(sig, case, detail):
+        ctx.fail(sig, case, detail)
+
+    M = make_machine(collect)
+    run_state_machine_as_test(
+        hypothesis.seed(sd)(M),
+        settings=settings(
+            max_examples=max_examples, phases=[Phase.generate], **common
+        ),
+    )
+    for sig in [s for s in ctx.failures if s not in before]:
+        if ctx.is_known(sig):
+            continue
+
+        class _Target(Exception):
+            pass
+
+        last = {}
+
+        def raising(s, case, detail, sig=sig, last=last):
+            if s.replace(" ", "_") == sig:
+                last["case"] = case
+                last["detail"] = detail
+                raise _Target()
+
+        M2 = make_machine(raising)
+        try:
+            run_state_machine_as_test(
+                hypothesis.seed(sd)(M2),
+                settings=settings(
+                    max_examples=max_examples,
+                    phases=[Phase.generate, Phase.shrink],
+                    **common
+                ),
+            )
+        except _Target:
+            pass
+        except Exception:
+            pass
+        if "case" in last:
+            ctx.failures[sig]["case"] = last["case"]
+            ctx.failures[sig]["detail"] = str(last["detail"])[:2000]
+            ctx.failures[sig]["shrunk"] = True
+
+
 # --------------------------------------------------------------------------
 # unit execution in worker processes
 
